@@ -8,8 +8,8 @@
 namespace undo_model {
 
 struct V { char t = 'i'; int32_t i = 0; float f = 0;
-    bool operator==(const V &o) const { return t == o.t && (t == 'f' ? !memcmp(&f, &o.f, 4) : i == o.i); }
-    std::string str() const { char b[48]; if (t == 'f') snprintf(b, sizeof b, "%g", f); else snprintf(b, sizeof b, "%d", i); return b; } };
+    bool operator==(const V &o) const { return t == o.t && ((t == 'f' || t == 'd') ? !memcmp(&f, &o.f, 4) : i == o.i); }
+    std::string str() const { char b[48]; if (t == 'f' || t == 'd') snprintf(b, sizeof b, "%g", f); else snprintf(b, sizeof b, "%d", i); return b; } };
 struct Entry { std::string addr; V oldv, newv; int64_t t_last_ms; };
 struct Emit { std::string addr; V v; };
 
